@@ -105,7 +105,10 @@ def parse(b, strict_tail=True):
                 problems.append('rec at %d: tloc %d != %d' % (p, tloc, pos))
             if rtid != tid:
                 problems.append('rec at %d: tid differs from txn' % p)
-            if prev != lastpos.get(oid, 0):
+            if prev != lastpos.get(oid, 0) and not (
+                    prev == 0 and status == b'p'):
+                # (pack writes prev = 0 into every record it keeps from
+                # before the pack time)
                 problems.append('rec at %d: prev %d != %d'
                                 % (p, prev, lastpos.get(oid, 0)))
             if r.back:
